@@ -40,7 +40,7 @@ type c17Sc struct {
 	Unknown []string `json:"unknown_variants"` // main-template sources with one name replaced by an unknown one
 	Debug   bool     `json:"debug"`
 	MaxK    int      `json:"max_k,omitempty"` // cap on enumerated fault positions (default 64)
-	Via     string   `json:"via,omitempty"`   // "" = Engine.Render, "renderto" = Engine.RenderTo, "load" = Load + Template.Render
+	Via     string   `json:"via,omitempty"`   // "" = Engine.Render, "renderto" = Engine.RenderTo, "load" = Load + Template.Render, "compiled" = the main template reaches the engine as compiled bytes
 }
 
 type propC17 struct{}
@@ -81,7 +81,7 @@ func (propC17) Gen(seed uint64, ex map[string]bool) interface{} {
 	if ex["macro-text-interpolation"] {
 		f.Macros = false
 	}
-	sc := &c17Sc{Prog: genProgram(r, f), Pool: pick(r, []int{simrt.PoolLIFO, simrt.PoolFresh, simrt.PoolRandom}), Debug: r.P(15), Via: pick(r, []string{"", "", "", "renderto", "load"})}
+	sc := &c17Sc{Prog: genProgram(r, f), Pool: pick(r, []int{simrt.PoolLIFO, simrt.PoolFresh, simrt.PoolRandom}), Debug: r.P(15), Via: pick(r, []string{"", "", "", "renderto", "load", "compiled"})}
 	if ex["tier:thorough"] {
 		sc.MaxK = 256
 	}
@@ -195,6 +195,13 @@ func c17Engine(sc *c17Sc, sp *Spies, mainSrc string) *twig.Engine {
 		})
 	if sc.Debug {
 		e.SetDebug(true)
+	}
+	if sc.Via == "compiled" {
+		// the main template comes from its stored form (parsed by LoadFromCompiled, not by Load); everything it
+		// refers to still comes through the fallible loader
+		if data, err := twig.SerializeCompiledTemplate(&twig.CompiledTemplate{Name: sc.Prog.Main, Source: src[sc.Prog.Main], LastModified: 1_700_000_000, CompileTime: 1_700_000_000}); err == nil {
+			e.LoadFromCompiledData(data)
+		}
 	}
 	return e
 }
